@@ -1,0 +1,42 @@
+//go:build verif
+
+package iptables
+
+// Verification hook (C15): read-only snapshot of the unexported Table state.
+// Compiled only with -tags verif.
+
+type VerifState struct {
+	DataplaneHashes map[string][]string
+	FullRules       map[string][]string
+	RefCounts       map[string]int
+	Chains          []string
+	DirtyChains     []string
+	DirtyInsertApp  []string
+	InSync          bool
+}
+
+func (t *Table) VerifState() VerifState {
+	st := VerifState{
+		DataplaneHashes: map[string][]string{}, FullRules: map[string][]string{}, RefCounts: map[string]int{},
+		InSync: t.inSyncWithDataPlane,
+	}
+	for k, v := range t.chainToDataplaneHashes {
+		st.DataplaneHashes[k] = append([]string{}, v...)
+	}
+	for k, v := range t.chainToFullRules {
+		st.FullRules[k] = append([]string{}, v...)
+	}
+	for k, v := range t.chainRefCounts {
+		st.RefCounts[k] = v
+	}
+	for k := range t.chainNameToChain {
+		st.Chains = append(st.Chains, k)
+	}
+	for k := range t.dirtyChains.All() {
+		st.DirtyChains = append(st.DirtyChains, k)
+	}
+	for k := range t.dirtyInsertAppend.All() {
+		st.DirtyInsertApp = append(st.DirtyInsertApp, k)
+	}
+	return st
+}
